@@ -2440,31 +2440,34 @@ class CanMatrix(object):
             return {}
 
     def enum_attribs_to_values(self):  # type: () -> None
+        def value_of(define, stored):  # type: (Define, typing.Any) -> typing.Any
+            try:
+                return define.values[int(float(stored))]
+            except (ValueError, IndexError):
+                return stored  # not an index: the value's name was stored
+
         for define in self.ecu_defines:
             if self.ecu_defines[define].type == "ENUM":
                 for bu in self.ecus:
                     if define in bu.attributes:
-                        bu.attributes[define] = self.ecu_defines[define].values[int(float(bu.attributes[define]))]
+                        bu.attributes[define] = value_of(self.ecu_defines[define], bu.attributes[define])
 
         for define in self.frame_defines:
             if self.frame_defines[define].type == "ENUM":
                 for frame in self.frames:
                     if define in frame.attributes:
-                        frame.attributes[define] = self.frame_defines[define].values[int(float(frame.attributes[define]))]
+                        frame.attributes[define] = value_of(self.frame_defines[define], frame.attributes[define])
 
         for define in self.signal_defines:
             if self.signal_defines[define].type == "ENUM":
                 for frame in self.frames:
                     for signal in frame.signals:
                         if define in signal.attributes:
-                            signal.attributes[define] = self.signal_defines[define].values[int(float(signal.attributes[define]))]
+                            signal.attributes[define] = value_of(self.signal_defines[define], signal.attributes[define])
 
         for define in self.global_defines:
             if self.global_defines[define].type == "ENUM" and define in self.attributes:
-                try:
-                    self.attributes[define] = self.global_defines[define].values[int(float(self.attributes[define]))]
-                except (ValueError, IndexError):
-                    pass  # not an index: the value's name was stored
+                self.attributes[define] = value_of(self.global_defines[define], self.attributes[define])
 
     def enum_attribs_to_keys(self):  # type: () -> None
         for define in self.global_defines:
